@@ -97,6 +97,8 @@ namespace gtry::hlim
 			state.setRange(sim::DefaultConfig::DEFINED, outputOffsets[0], width, fillDef);
 			return;
 		}
+		if (width == 0) // rotating a zero-width vector: nothing to do (and avoid the division by zero below)
+			return;
 		amountVal %= width;
 
 		if (m_direction == dir::left)
